@@ -22,6 +22,7 @@ try:
         shutil.copytree("/repo/qubovert", os.path.join(tmp, "qubovert"), ignore=shutil.ignore_patterns("__pycache__", "*.so"))
         subprocess.run(["patch", "-p1", "-s", "-d", tmp, "-i", patch], check=True)
         env["VERIF_REPO"] = tmp
+        env["VERIF_EVIDENCE_DIR"] = os.path.join(tmp, "evidence")
     for cid in ids:
         r = subprocess.run([os.path.join(ROOT, "check"), cid, "quick"], cwd=ROOT, env=env, capture_output=True, text=True)
         lines = [l for l in r.stdout.splitlines() if l.startswith(("VIOLATION", "INFRA", cid))]
